@@ -495,3 +495,120 @@ def check_suite_parametric(rep, facts, rule, scope=None, floor=None, what='suite
     if floor is not None:
         rep.floor(rule, what, n, floor)
     return n
+
+
+# ---------------------------------------------------------------------- how a Result is consumed (form-independent)
+def _peel_result(a, y, point):
+    """y: a term that denotes the Result produced by a call, possibly behind a reference to the local that holds it and
+    possibly through map_err.  -> (call site block, closure term | None) or (None, None)"""
+    for _ in range(6):
+        if y[0] == 'addr' and y[1][0] == 'local' and not y[2]:
+            y = a.load(y[1], (), point)
+            continue
+        if y[0] == 'call' and y[1] == 'core::result::Result::map_err' and len(y[2]) == 2:
+            inner, clos = y[2]
+            s, c2 = _peel_result(a, inner, a.term_point(y[3]))
+            return (s, clos if c2 is None else c2) if s is not None else (None, None)
+        if y[0] == 'call':
+            return y[3], None
+        break
+    return None, None
+
+
+def result_outcome(a, facts, bi):
+    """How the Result returned by the call terminating block `bi` is consumed, whatever the spelling:
+    `x?`, `x.map_err(f)?`, `match x { Ok(v) => …, Err(e) => return Err(…) }`, `if x.is_err() { return Err(…) }`,
+    `if let Ok(v) = x {…} else { return Err(…) }`.
+    -> None if no branch of the body decides on it, else a dict with
+       ok_edge / err_edge: (src block, target block) taken iff the call returned Ok / Err;
+       form: 'try' | 'match' | 'is_err' | 'is_ok';
+       err_returns: [(site, term, how)] the values returned on paths through err_edge, how = HpkeError variant name,
+                    'same' (the callee's error unchanged) or '?…' (not understood)."""
+    cands = []
+    for sb, blk in enumerate(a.body.blocks):
+        if blk['cleanup'] or sb not in a.cfg.reach or blk['term']['k'] != 'switch':
+            continue
+        t = blk['term']
+        p = a.term_point(sb)
+        d = a.val_op(t['discr'], p)
+        form = None
+        y = None
+        neg = False
+        while d[0] == 'un' and d[1] == 'Not':
+            d = d[2]
+            neg = not neg
+        if d[0] == 'discr' and d[1][0] == 'try':
+            form, y = 'try', d[1][1]
+        elif d[0] == 'discr':
+            form, y = 'match', d[1]
+        elif d[0] == 'call' and d[1] in ('core::result::Result::is_err', 'core::result::Result::is_ok') and len(d[2]) == 1:
+            form, y = d[1].rsplit('::', 1)[1], d[2][0]
+            p = a.term_point(d[3])
+        if form is None:
+            continue
+        site, clos = _peel_result(a, y, p)
+        if site != bi:
+            continue
+        if form in ('try', 'match'):
+            ok_t, err_t = switch_edge(t, 0), switch_edge(t, 1)
+        else:
+            truthy, falsy = switch_edge(t, 1), switch_edge(t, 0)
+            if neg:
+                truthy, falsy = falsy, truthy
+            ok_t, err_t = (falsy, truthy) if form == 'is_err' else (truthy, falsy)
+        if ok_t == err_t:
+            continue
+        cands.append({'switch': sb, 'form': form, 'ok_edge': (sb, ok_t), 'err_edge': (sb, err_t), 'closure': clos})
+    if len(cands) != 1:
+        return None
+    o = cands[0]
+    sb, err_t = o['err_edge']
+    rets = []
+    for s, t in a.return_terms():
+        if s is None or s == 'entry' or not a.cfg.edge_dominates(sb, err_t, s[0]):
+            continue
+        how = '?' + pp(t)[:80]
+        if t[0] == 'from_residual' and t[1][0] == 'residual':
+            site, clos = _peel_result(a, t[1][1], a.term_point(s[0]))
+            if site == bi:
+                how = 'same'
+                if clos is not None:
+                    cr = closure_ret(facts, clos)
+                    how = (hpke_variant(cr) if cr is not None else None) or '?closure'
+        elif is_err_agg(t):
+            pl = t[3][0]
+            v = hpke_variant(pl)
+            if v:
+                how = v
+            elif pl[0] == 'errval':
+                site, clos = _peel_result(a, pl[1], a.term_point(s[0]))
+                if site == bi and clos is None:
+                    how = 'same'
+        rets.append((s, t, how))
+    o['err_returns'] = rets
+    return o
+
+
+def checked_sub_some(a, facts, idx):
+    """idx = the Some payload of `x.checked_sub(y)` (the canonical form of `x.checked_sub(y).ok_or(e)?`, of
+    `match x.checked_sub(y) { Some(n) => n, None => return Err(e) }` and of `let Some(n) = … else { return … }`).
+    -> (x, y, call block, [returned error variants on the None edge]) or None"""
+    if not (idx[0] == 'field' and idx[1] == '0' and idx[2][0] == 'variant' and idx[2][1] == 'Some'):
+        return None
+    c = idx[2][2]
+    if not (c[0] == 'call' and c[1] == 'core::num::<impl usize>::checked_sub' and len(c[2]) == 2):
+        return None
+    cbi = c[3]
+    errs = None
+    for sb, t, d in switch_on(a, lambda d: d[0] == 'discr' and d[1][0] == 'call' and len(d[1]) > 3 and d[1][3] == cbi):
+        none_t = switch_edge(t, 0)
+        some_t = switch_edge(t, 1)
+        if none_t == some_t:
+            continue
+        errs = []
+        for s, tt in a.return_terms():
+            if s in (None, 'entry') or not a.cfg.edge_dominates(sb, none_t, s[0]):
+                continue
+            vs = result_err_variants(facts, tt)
+            errs.append(sorted(vs))
+    return c[2][0], c[2][1], cbi, errs
